@@ -741,7 +741,9 @@ func floodStage(scratch string) {
 	dir := scratch + "/flood"
 	_ = os.MkdirAll(dir, 0o700)
 	env := NewEnv(dir)
-	bad := []string{"\x00", "\xff", "\xef\xbb\xbf", "\x80", "\x01"}
+	// (with a line break after each bad byte too: an error cap that counts one error per LINE needs them on
+	// distinct lines — C04-m8)
+	bad := []string{"\x00", "\xff", "\xef\xbb\xbf", "\x80", "\x01", "\x00\n", "\xff\n", "\x80\x00\n"}
 	wrap := []struct{ name, open, close string }{
 		{"string", "\"", "\""}, {"raw-string", "`", "`"}, {"char", "'", "'"}, {"block-comment", "/*", "*/ a := 1"},
 		{"line-comment", "//", "\na := 1"}, {"bare", "", ""}, {"bare-then-code", "", " a := 1"}, {"unterminated-string", "\"", ""},
